@@ -634,6 +634,10 @@ class ConfigValidator:
         if len(color) == 3:
             color.append(1)
 
+        if len(color) != 4:
+            raise self.validation_error(item, validation_failure_info,
+                                        "Color needs three or four components.")
+
         return color
 
     def _validate_type_color(self, item, validation_failure_info, param=None):
